@@ -30,7 +30,8 @@ def corpus():
         "plan 500 %s mode=%s dur=30 dur=45" % (base, u),
         "run prop=C15 mode=file dur=1000 conc=3 file=c:400:3/100ms;c:30000:3/100ms body=5",   # run cut short in the middle of a stage
         "run prop=C15 mode=file dur=3000 conc=3 file=u:200:2;c:300:3/100ms;c:200:2/50ms body=5",
-        "run prop=C15 mode=file dur=4000 conc=3 file=c:200:2/100ms;c:200:2/100ms;c:200:2/100ms;c:200:2/100ms;c:200:2/100ms body=1",   # stage starts do not creep forward
+        "run prop=C15 mode=file dur=4000 conc=3 file=c:200:2/100ms;c:200:2/100ms;c:200:2/100ms;c:200:2/100ms;c:200:2/100ms body=1",
+        "run prop=C15 mode=file dur=4000 conc=3 file=u:200:1;u:200:1;u:200:1 body=150",      # a users stage waits for its users before the next one starts   # stage starts do not creep forward
     ] + _plan.cli_corpus_for("C15")
 
 
